@@ -181,23 +181,24 @@ def run(ctx):
         resc2 = goenv.run_harness(ctx, PKG, "^TestVerifC03Concurrent$", timeout=2400,
                                   env={"VERIF_C03_TRACES": T["traces"], "VERIF_C03_RACES": 0})
         _a2, rejected2, _s2, _n2 = validate_traces(ctx, resc2, tag="c03b")
-        inv1 = {v.invariant for v in rejected if v.invariant}
-        inv2 = {v.invariant for v in rejected2 if v.invariant}
+        again = {v.invariant for v in rejected2 if v.invariant}
         for v in rejected:
             d = v.as_dict()
             path = save_replay(ctx, "trace-rejected-seed%d-%s.json" % (ctx.seed, v.name), d)
-            if v.invariant and v.invariant in inv2:
+            if v.invariant and again:
                 ctx.violations.append({"cls": "trace:" + v.invariant, "replay": path,
-                                       "what": "trace:%s: recorded concurrent execution %s violates %s of C03_Trace at event %d/%d (next %s)"
-                                               % (v.invariant, v.name, v.invariant, v.matched, v.length, json.dumps(v.next_event)[:200])})
-            elif v.invariant:
-                raise MachineryError("trace %s violated %s once and no trace did with the same seed again (inconclusive)"
-                                     % (v.name, v.invariant))
+                                       "what": "trace:%s: recorded concurrent execution %s violates %s of C03_Trace at event %d/%d (next %s); "
+                                               "a second run with the same seed violates %s"
+                                               % (v.invariant, v.name, v.invariant, v.matched, v.length,
+                                                  json.dumps(v.next_event)[:200], sorted(again))})
+            elif v.invariant and not ctx.violations:
+                raise MachineryError("trace %s violated %s once and no trace violated an invariant with the same seed again "
+                                     "(inconclusive)" % (v.name, v.invariant))
             else:
                 div += 1
-                ctx.notes.append("DIVERGENCE trace %s not a behaviour of C03_Trace at event %d/%d (%s)"
-                                 % (v.name, v.matched, v.length, json.dumps(v.next_event)[:200]))
-        del inv1
+                ctx.notes.append("DIVERGENCE trace %s not accepted by C03_Trace at event %d/%d (%s)%s"
+                                 % (v.name, v.matched, v.length, json.dumps(v.next_event)[:200],
+                                    " invariant " + v.invariant if v.invariant else ""))
 
     replayed = res["replayed"] + resr["replayed"] + resc["replayed"]
     log("C03: MC %d states / %d transitions in %d runs; replay %d walks %d steps; grid %d points; random %d; "
